@@ -149,6 +149,67 @@ Definition n_fin_true (t : list tev) : nat := length (filter (fun b => b) (fins 
 
 (* ---- shipped modules ---- *)
 Definition reports_once (b : beh) (succ : bool) : Prop := b = Beh [succ] false.
+Definition shipped (k : kind) : bool := match k with KScript _ _ => false | _ => true end.
+
+(* On a whole log: every call (run r, module i) of a shipped module completes exactly once.
+   What the environment delivers on top (an [OFire] aimed at the continuation such a call
+   received) is counted separately: [fires_to]. *)
+Definition caps_of (log : list ev) : list (Z * Z) :=
+  flat_map (fun x => match x with EEnter r i => [(r, i)] | _ => [] end) log.
+
+(* completions the environment delivered to call (r, i): Fire operations that did something (a
+   Fire naming a continuation that does not exist yet is a no-op); obs = one event list per op *)
+Fixpoint fires_to (ops : list op) (obs : list (list ev)) (caps : list (Z * Z)) (r i : Z) : nat :=
+  match ops, obs with
+  | OFire k _ :: ops', (_ :: _) :: obs' =>
+      let hit := if Z.ltb k 0 then false else
+                 match nth_error caps (Z.to_nat k) with
+                 | Some (r', i') => Z.eqb r r' && Z.eqb i i'
+                 | None => false
+                 end in
+      if hit then S (fires_to ops' obs' caps r i) else fires_to ops' obs' caps r i
+  | _ :: ops', _ :: obs' => fires_to ops' obs' caps r i
+  | _, _ => 0%nat
+  end.
+
+Definition kind_at (e : env) (i : Z) : option kind := if i <? 0 then None else nth_error (e_mods e) (Z.to_nat i).
+Definition dir_at (dirs : list bool) (r : Z) : option bool := if r <? 0 then None else nth_error dirs (Z.to_nat r).
+
+(* Two Stop paths carry a precondition that App.Stop guarantees and a bare ModList.Stop does not:
+   ActorSystemModule.Stop needs a live actor system, ClusterModule.Stop a provider that is not
+   half made (its own Start did not fail inside StartMember's init).  [unclaimed]: the calls
+   that were entered without their precondition - the environment state (Model.entry_live,
+   entry_half) replayed over the entries of the log itself.  dirs: direction of each run. *)
+Definition needs_missing (fwd live : bool) (half : list Z) (i : Z) (k : kind) : bool :=
+  match k with
+  | KActor => negb fwd && negb live
+  | KCluster => negb fwd && zmem i half
+  | _ => false
+  end.
+Fixpoint unclaimed (e : env) (dirs : list bool) (live : bool) (half : list Z) (log : list ev) : list (Z * Z) :=
+  match log with
+  | [] => []
+  | EEnter r i :: log' =>
+      match dir_at dirs r, kind_at e i with
+      | Some fwd, Some k =>
+          (if needs_missing fwd live half i k then [(r, i)] else []) ++
+          unclaimed e dirs (entry_live e fwd live k) (entry_half e fwd i half k) log'
+      | _, _ => (r, i) :: unclaimed e dirs live half log'
+      end
+  | _ :: log' => unclaimed e dirs live half log'
+  end.
+Definition pair_mem (r i : Z) (l : list (Z * Z)) : bool := existsb (fun y => (r =? fst y) && (i =? snd y)) l.
+
+(* call (r, i) reported exactly once (plus what was fired at it) *)
+Definition call_once (ops : list op) (obs : list (list ev)) (r i : Z) : Prop :=
+  n_next i (proj r (concat obs)) = (n_enter i (proj r (concat obs)) + fires_to ops obs (caps_of (concat obs)) r i)%nat.
+Definition call_once_b (ops : list op) (obs : list (list ev)) (r i : Z) : bool :=
+  Nat.eqb (n_next i (proj r (concat obs))) (n_enter i (proj r (concat obs)) + fires_to ops obs (caps_of (concat obs)) r i).
+
+(* every call of a shipped module whose precondition held *)
+Definition shipped_calls_once (ops : list op) (obs : list (list ev)) (dirs : list bool) : Prop :=
+  forall r i fwd k, dir_at dirs r = Some fwd -> kind_at (env_of ops) i = Some k -> shipped k = true ->
+    pair_mem r i (unclaimed (env_of ops) dirs false [] (concat obs)) = false -> call_once ops obs r i.
 
 (* data used by the Examples of Props.v *)
 Definition ex_ok : beh := Beh [true] false.    (* calls next(true) before returning *)
